@@ -19,12 +19,12 @@ const preludeSorts = `(set-logic ALL)
 (declare-sort TimeT 0)
 (declare-sort Opq 0)
 (define-fun root0 ((l Loc)) Int (ite ((_ is LRoot) l) (rid l) (- 1)))
-(define-fun par ((l Loc)) Loc (ite ((_ is LField) l) (fpar l) (ite ((_ is LElem) l) (epar l) l)))
-(define-fun root1 ((l Loc)) Int (ite ((_ is LRoot) l) (rid l) (ite ((_ is LNil) l) (- 1) (root0 (par l)))))
-(define-fun root2 ((l Loc)) Int (ite ((_ is LRoot) l) (rid l) (ite ((_ is LNil) l) (- 1) (root1 (par l)))))
-(define-fun root3 ((l Loc)) Int (ite ((_ is LRoot) l) (rid l) (ite ((_ is LNil) l) (- 1) (root2 (par l)))))
-(define-fun root4 ((l Loc)) Int (ite ((_ is LRoot) l) (rid l) (ite ((_ is LNil) l) (- 1) (root3 (par l)))))
-(define-fun root ((l Loc)) Int (ite ((_ is LRoot) l) (rid l) (ite ((_ is LNil) l) (- 1) (root4 (par l)))))
+(define-fun lparent ((l Loc)) Loc (ite ((_ is LField) l) (fpar l) (ite ((_ is LElem) l) (epar l) l)))
+(define-fun root1 ((l Loc)) Int (ite ((_ is LRoot) l) (rid l) (ite ((_ is LNil) l) (- 1) (root0 (lparent l)))))
+(define-fun root2 ((l Loc)) Int (ite ((_ is LRoot) l) (rid l) (ite ((_ is LNil) l) (- 1) (root1 (lparent l)))))
+(define-fun root3 ((l Loc)) Int (ite ((_ is LRoot) l) (rid l) (ite ((_ is LNil) l) (- 1) (root2 (lparent l)))))
+(define-fun root4 ((l Loc)) Int (ite ((_ is LRoot) l) (rid l) (ite ((_ is LNil) l) (- 1) (root3 (lparent l)))))
+(define-fun root ((l Loc)) Int (ite ((_ is LRoot) l) (rid l) (ite ((_ is LNil) l) (- 1) (root4 (lparent l)))))
 (declare-fun s_len (Str) (_ BitVec 64))
 (declare-fun s_at (Str (_ BitVec 64)) (_ BitVec 8))
 (declare-fun s_cat (Str Str) Str)
